@@ -11,6 +11,7 @@ import (
 	"verif/explore"
 	"verif/harness"
 	"verif/vsched"
+	"verif/vstor"
 )
 
 // seqTask asks a worker to replay Ops[:len-1] on a fresh DB, apply the last op, evaluate the
@@ -42,16 +43,75 @@ type seqHooks struct {
 	After func(w *harness.World, t *seqTask, r *seqResult) // after the last op's checks
 }
 
+func hasMode(t *seqTask, m string) bool {
+	for _, f := range strings.Split(t.Mode, ",") {
+		if f == m {
+			return true
+		}
+	}
+	return false
+}
+
 func runSeq(t *seqTask, hk *seqHooks) *seqResult {
-	res := &seqResult{}
+	res := &seqResult{Extra: map[string]int{}}
 	var w *harness.World
-	r := vsched.Run(vsched.Options{}, func() {
+	opts := vsched.Options{}
+	var monViol []string
+	if hasMode(t, "lsm") {
+		// C06 monitor: validate every version the moment it becomes current
+		last := int64(-1)
+		opts.StepHook = func() {
+			if w == nil || w.DB == nil || len(monViol) > 0 {
+				return
+			}
+			id := w.DB.VerifVersionID()
+			if id == last || id < 0 {
+				return
+			}
+			last = id
+			v, st := harness.CheckLSM(w.Stor, w.DB.VerifState(), w.Cfg)
+			res.Extra["versions_checked"]++
+			res.Extra["tables_read_back"] += st.Tables
+			if st.MaxLevel > res.Extra["max_level"] {
+				res.Extra["max_level"] = st.MaxLevel
+			}
+			if st.MaxFilesInLevel > res.Extra["max_files_in_level"] {
+				res.Extra["max_files_in_level"] = st.MaxFilesInLevel
+			}
+			for _, x := range v {
+				monViol = append(monViol, fmt.Sprintf("version %d: %s", id, x))
+			}
+		}
+	}
+	doChecks := func() {
+		if strings.Contains(t.Checks, "db") {
+			w.CheckDB()
+		}
+		if !w.Failed() && strings.Contains(t.Checks, "views") {
+			w.CheckViews()
+		}
+	}
+	r := vsched.Run(opts, func() {
 		w = harness.NewWorld(harness.Config{Name: t.Cfg})
 		if len(t.Probes) > 0 {
 			w.Probes = nil
 			for _, p := range t.Probes {
 				w.Probes = append(w.Probes, harness.Unesc(p))
 			}
+		}
+		w.Scribble = hasMode(t, "scribble")
+		if os.Getenv("VERIF_DEBUG") != "" {
+			w.Stor.KeepLog = true
+			defer func() {
+				for _, l := range w.Stor.LogText {
+					fmt.Fprintln(os.Stderr, "LOG", l)
+				}
+				for _, o := range w.Stor.Ops {
+					if o.Kind.Mutating() || o.Kind == vstor.KOpen {
+						fmt.Fprintln(os.Stderr, "OP", o.String())
+					}
+				}
+			}()
 		}
 		if hk != nil && hk.Setup != nil {
 			hk.Setup(w, t)
@@ -61,6 +121,9 @@ func runSeq(t *seqTask, hk *seqHooks) *seqResult {
 		}
 		for i, op := range t.Ops {
 			w.Apply(op)
+			if !w.Failed() && hasMode(t, "every") && i < len(t.Ops)-1 && w.DB != nil {
+				doChecks()
+			}
 			if w.Failed() {
 				w.Viol = append(w.Viol, fmt.Sprintf("(at step %d %q)", i, op))
 				return
@@ -72,11 +135,8 @@ func runSeq(t *seqTask, hk *seqHooks) *seqResult {
 			res.Comp, _ = w.DB.GetProperty("leveldb.compcount")
 		}
 		res.Enabled = w.Enabled(t.Alpha)
-		if strings.Contains(t.Checks, "db") {
-			w.CheckDB()
-		}
-		if !w.Failed() && strings.Contains(t.Checks, "views") {
-			w.CheckViews()
+		if w.DB != nil {
+			doChecks()
 		}
 		if !w.Failed() && hk != nil && hk.After != nil {
 			hk.After(w, t, res)
@@ -90,6 +150,7 @@ func runSeq(t *seqTask, hk *seqHooks) *seqResult {
 	if w != nil {
 		res.Viol = w.Viol
 	}
+	res.Viol = append(res.Viol, monViol...)
 	if r.Verdict != vsched.Completed {
 		res.Blocked = r.Blocked
 		res.Viol = append(res.Viol, fmt.Sprintf("execution ended with %s: %v", r.Verdict, r.PanicValue))
@@ -174,6 +235,15 @@ func bfs(c *explore.Ctx, pool *explore.Pool, spec seqSpec, prop string) seqStats
 				results[i].Viol = []string{"worker crashed or timed out: " + errs[i].Error()}
 			}
 			r := results[i]
+			for k, v := range r.Extra {
+				if strings.HasPrefix(k, "max_") {
+					if v > c.Get("x_"+k) {
+						c.Coverage["x_"+k] = v
+					}
+				} else {
+					c.Add("x_"+k, v)
+				}
+			}
 			if len(r.Viol) > 0 {
 				if reportSeq(c, pool, prop, metas[i], r) {
 					st.Viol++
